@@ -508,6 +508,12 @@ fn check_history(report: &Report, rt: &std::sync::Arc<tokio::runtime::Runtime>, 
     report.eval(Some(&(&hist_names, "none", "resolution")));
     compare(report, hist, &json!({"file": "none", "fault": "none"}), "restarted_authority", &tail, &found, &res_truth);
     drop(re);
+    // a thread of many MiB: every faulted copy costs seconds; the no-fault differential (warm and
+    // restarted authority against the cache-less truth) is what such a thread is for
+    if hist.iter().map(|o| if let HOp::BigMsg(k) = o { *k as u64 } else { 0 }).sum::<u64>() > 5000 {
+        report.count("histories_with_the_no_fault_differential_only", 1);
+        return;
+    }
     let files: Vec<String> = snapshots.last().map(|s| s.keys().cloned().collect()).unwrap_or_default();
     let mut faults: Vec<Fault> = vec![Fault::Delete, Fault::Truncate0, Fault::Truncate1, Fault::TruncateMidLast, Fault::TruncateLastLine, Fault::TruncateHalf, Fault::DropFirstLine, Fault::Garbage];
     for j in 0..hist.len().saturating_sub(1) {
@@ -702,7 +708,7 @@ fn check_history(report: &Report, rt: &std::sync::Arc<tokio::runtime::Runtime>, 
         // authority - it has appended to the thread, its counter is cached - then the fault on
         // its live files, queries, one more append, queries. Single faults only; quick tier:
         // delete / empty only, histories of 3 ops left to the thorough tier.
-        let warm_fault = set.len() == 1 && (!light || (hist.len() != 3 && matches!(set[0].1, Fault::Delete | Fault::Truncate0)));
+        let warm_fault = set.len() == 1 && (!light || ((hist.len() != 3 || pairs) && matches!(set[0].1, Fault::Delete | Fault::Truncate0)));
         if !warm_fault {
             continue;
         }
@@ -721,7 +727,8 @@ fn check_history(report: &Report, rt: &std::sync::Arc<tokio::runtime::Runtime>, 
         let found4 = all_answers_ordered(&warm, &thread, true, 3, true);
         report.eval(Some(&(&hist_names, desc.to_string(), "warm_fault")));
         report.count("warm_fault_cases", 1);
-        compare(report, hist, &desc, "warm_fault", "tail=message", &found4, &truth4);
+        let kinds = compare(report, hist, &desc, "warm_fault", "tail=message", &found4, &truth4);
+        single_diffs.insert((set[0].0.clone(), fault_name(&set[0].1), "warm_fault"), kinds);
         // a second store for the append: the queries above may have repaired what the append would meet
         let warm = fx.copy(true);
         if warm.store().append_message(&thread, "u".into(), "o".into(), "warm-up".into()).is_err() {
@@ -746,6 +753,54 @@ fn check_history(report: &Report, rt: &std::sync::Arc<tokio::runtime::Runtime>, 
         let found5 = all_answers_ordered(&warm, &thread, true, 3, true);
         report.eval(Some(&(&hist_names, desc.to_string(), "warm_fault_and_append")));
         compare(report, hist, &desc, "warm_fault_and_append", "tail=message", &found5, &truth5);
+    }
+    // PAIRS of faults under a running authority: two members lost or emptied at once (a member
+    // whose loss is covered by a fall-back to another member: the pair takes both away). What one
+    // of the two faults causes alone is that single-fault result again; only what the combination
+    // adds is reported (`pair_only`).
+    if pairs && !heavy {
+        let lost = [Fault::Delete, Fault::Truncate0];
+        for (i, a) in files.iter().enumerate() {
+            for b in &files[i + 1..] {
+                for fa in &lost {
+                    for fb in &lost {
+                        if report.over_cap() {
+                            return;
+                        }
+                        let set = vec![(a.clone(), fa.clone()), (b.clone(), fb.clone())];
+                        let desc = json!({
+                            "file": set.iter().map(|(f, _)| family(f)).collect::<Vec<_>>().join("+"),
+                            "fault": set.iter().map(|(_, f)| fault_name(f)).collect::<Vec<_>>().join("+"),
+                        });
+                        announce(json!({"t": "begin", "what": "warm_fault_pair", "history": hist_names, "fault": desc}));
+                        let warm = fx.copy(true);
+                        if warm.store().append_message(&thread, "u".into(), "o".into(), "warm-up".into()).is_err() {
+                            continue;
+                        }
+                        let mut applied = true;
+                        for (file, fault) in &set {
+                            applied &= apply_fault(&warm.data.join("continuity_streams").join(file), fault, &snapshots);
+                        }
+                        if !applied {
+                            continue;
+                        }
+                        let truth_fx = warm.copy(false);
+                        let truth6 = truth_answers(&truth_fx, &thread, true, 3);
+                        drop(truth_fx);
+                        let found6 = all_answers_ordered(&warm, &thread, true, 3, true);
+                        report.eval(Some(&(&hist_names, desc.to_string(), "warm_fault_pair")));
+                        report.count("warm_fault_pair_cases", 1);
+                        let mut att = std::collections::BTreeSet::new();
+                        for (file, fault) in &set {
+                            if let Some(k) = single_diffs.get(&(file.clone(), fault_name(fault), "warm_fault")) {
+                                att.extend(k.iter().cloned());
+                            }
+                        }
+                        compare_attr(report, hist, &desc, "warm_fault", "tail=message", &found6, &truth6, Some(&att));
+                    }
+                }
+            }
+        }
     }
 }
 
@@ -782,7 +837,7 @@ fn history_list(tier: Tier) -> Vec<Vec<HOp>> {
     }
     // window-crossing prefixes with every depth<=1 (quick) / <=2 (thorough) suffix
     let prefixes: Vec<Vec<HOp>> = match tier {
-        Tier::Quick => vec![vec![HOp::Run, HOp::Cursor(0), HOp::Fill(600)], vec![HOp::Run, HOp::Cursor(0), HOp::SelPair, HOp::Fill(10_001)], vec![HOp::Run, HOp::BigMsg(300)], vec![HOp::Msg; 18], vec![HOp::BigMsg(20); 40]],
+        Tier::Quick => vec![vec![HOp::Run, HOp::Cursor(0), HOp::Fill(600)], vec![HOp::Run, HOp::Cursor(0), HOp::SelPair, HOp::Fill(10_001)], vec![HOp::Run, HOp::BigMsg(300)], vec![HOp::Msg; 18], vec![HOp::BigMsg(20); 40], vec![HOp::BigMsg(600); 18]],
         Tier::Thorough => vec![
             vec![HOp::Run, HOp::Cursor(0), HOp::Fill(600)],
             vec![HOp::Run, HOp::Cursor(0), HOp::SelPair, HOp::Fill(10_001)],
@@ -790,6 +845,8 @@ fn history_list(tier: Tier) -> Vec<Vec<HOp>> {
             vec![HOp::Run, HOp::Cursor(0), HOp::BigMsg(3072), HOp::BigMsg(3072), HOp::BigMsg(3072)],
             vec![HOp::Msg; 18],
             vec![HOp::BigMsg(20); 40],
+            // the 16 newest messages take more than 8 MiB of the messages+runs sidecar
+            vec![HOp::BigMsg(600); 18],
         ],
     };
     for p in prefixes {
@@ -836,7 +893,10 @@ fn worker(opts: Opts) -> i32 {
         // pairs of faults (and "every file but one deleted"): thorough, histories of <= 3 operations
         // (quick: of 1 operation). A difference that one of the two faults causes alone is that
         // single-fault result again (reported or listed there); only what the combination adds is new.
-        let pairs = h.len() <= tier.pick(1, 3);
+        // quick: also four short histories that hold a checkpoint (a derived member whose loss is
+        // covered by a fall-back to another member: the pair takes both away)
+        let with_checkpoint: [Vec<HOp>; 4] = [vec![HOp::Msg, HOp::Ckpt], vec![HOp::Msg, HOp::Msg, HOp::Ckpt], vec![HOp::Msg, HOp::Auto], vec![HOp::Run, HOp::Ckpt]];
+        let pairs = h.len() <= tier.pick(1, 3) || with_checkpoint.contains(h);
         check_history(&report, &rt, h, pairs, tier == Tier::Quick);
         if shard == 0 && i < 3 * of {
             report.sample(json!({"history": h.iter().map(op_name).collect::<Vec<_>>(), "faults": "every single fault on every cache file of the thread, then one append"}));
